@@ -99,6 +99,10 @@ def _run_vx_unit_once(unit: str, repo: str, scratch: str, tier: str, log: List[s
     stubs = [e for e in ub.emitted if e.kind == "stub"]
     info["functions_under_contract"] = [f"{e.file}:{e.line} {e.name}" for e in verify]
     info["assumed_contracts"] = [f"{e.file}:{e.line} {e.name}" for e in stubs]
+    info["assumed_sha256"] = {f"{e.file}::{e.name}": e.sha256 for e in stubs if e.sha256 and e.file and not e.file.startswith("(")}
+    info["verified_sites"] = sorted({f"{e.file}:{e.line}" for e in verify})
+    info["verified_keys"] = sorted({f"{e.file}::{e.name.split('__')[0]}" for e in verify if e.file})
+    info["stub_sites"] = {f"{e.file}::{e.name}": f"{e.file}:{e.line}" for e in stubs if e.sha256 and e.file and not e.file.startswith("(")}
     info["rewrites_applied"] = {e.name: e.rewrites for e in verify if e.rewrites}
     info["variant_split_functions"] = [e.name for e in ub.emitted if e.kind == "split-summary"]
     info["carved_blocks"] = ub.carved
@@ -259,6 +263,29 @@ def main_check(a) -> int:
     if a.relock:
         carve_lock.update(carved_now)
         json.dump(lock, open(LOCK, "w"), indent=1, sort_keys=True)
+    # assumed contracts about /repo code are pinned to the text they were written against — unless the same function is verified
+    # by another unit of this property (then a change is decided there)
+    verified_sites = {x for i in infos for x in i.get("verified_sites", [])}
+    vby = lock.setdefault("_verified_by", {})
+    if a.relock:
+        vby[prop] = sorted({x for i in infos for x in i.get("verified_keys", [])})
+    verified_elsewhere = {k for p2, ks in vby.items() if p2 != prop for k in ks}
+    assumed_now = {}
+    for i in infos:
+        for k, sha in (i.get("assumed_sha256") or {}).items():
+            # exempt: verified by a unit of this property, or by a registered unit of another property (decided there)
+            if i["stub_sites"][k] not in verified_sites and k not in verified_elsewhere:
+                assumed_now[k] = sha
+    assumed_lock = lock.setdefault("_assumed", {}).setdefault(prop, {})
+    if a.relock:
+        lock["_assumed"][prop] = dict(assumed_now)
+        assumed_lock = lock["_assumed"][prop]
+        json.dump(lock, open(LOCK, "w"), indent=1, sort_keys=True)
+    for k, sha in assumed_now.items():
+        if k in assumed_lock and assumed_lock[k] != sha:
+            obls.append(Obligation(f"vx:assumed:{k}", "VX", "assumed", "<assumed>", "undecided", "extractor",
+                                   detail={"reason": f"assumed-code-changed: `{k}` is not verified here, its contract is ASSUMED, and its text "
+                                                     f"changed (sha256 {sha[:16]}, locked {assumed_lock[k][:16]}): the assumption must be re-examined"}))
     for stub, sha in carved_now.items():
         if carve_lock.get(stub) != sha:
             obls.append(Obligation(f"vx:carved:{stub}", "VX", "carved", "<carved>", "undecided", "extractor",
